@@ -50,7 +50,8 @@ def main():
             r = a["req"]
             try:
                 # "unmentioned tensors dense": with omit_dense the all-dense natural formats are simply not given
-                given = [(n, f) for n, f in r["formats"]
+                fmts_ = list(reversed(r["formats"])) if a.get("reverse_formats") else r["formats"]
+                given = [(n, f) for n, f in fmts_
                          if not (a.get("omit_dense") and "s" not in f and f == "".join(f"d{i}" for i in range(f.count("d"))))]
                 pr = make_problem(parse_assignment(r["text"]).unwrap(), {n: parse_format(f).unwrap() for n, f in given}).unwrap()
                 res = generate_code(pr, [KernelType[k] for k in r["kinds"]], Language[r["lang"]])
@@ -61,7 +62,7 @@ def main():
         elif act == "cli":
             r = a["req"]
             args = [r["text"]]
-            for n, f in r["formats"]:
+            for n, f in (list(reversed(r["formats"])) if a.get("reverse_formats") else r["formats"]):
                 if a.get("omit_dense") and f == "".join(f"d{i}" for i in range(f.count("d"))) and "s" not in f:
                     continue
                 args += ["-f", f"{n}:{f}"]
